@@ -328,6 +328,29 @@ func init() {
 	})
 }
 
+func init() {
+	reg(&CheckDef{
+		ID:   "C02",
+		Meta: "fit.Hmeta",
+		Jobs: func(tier string, meta map[string]int) []Job {
+			allstr := 0
+			if tier == "thorough" {
+				allstr = 1
+			}
+			return msgJobs(meta, "fit", "H02a", "allstr", allstr)
+		},
+		MustReach: []string{"C02.compatible-definition-accepted", "C02.compatible-record-decodes", "C02.value.scalar", "C02.value.time", "C02.value.localtime", "C02.value.lat", "C02.value.lng", "C02.value.string", "C02.value.string-array", "C02.value.array-element", "C02.absent-fields-invalid", "compared"},
+		Bounds: map[string]interface{}{
+			"quick":    "single-field definitions: every profile message x every listed field x every compatible (base type, size) pair x both byte orders x all data bytes, compared with a reference decoder; string sizes restricted to {0..8,16,127,128,254,255}; string arrays: sizes 0..6 fully symbolic, larger sizes with one terminator at any position",
+			"thorough": "as quick with every string size 0..255 and two terminators in long string arrays",
+		},
+		Outside: []string{"definitions with several fields, unknown/developer fields between known ones (H02b, planned) and whole files",
+			"definitions the validator accepts that are not 'compatible' in the property's sense (e.g. uint8 with size 2 into a uint16 slot) have no single denoted value; C01 covers their safety",
+			"local timestamps are compared with no reference time set (the reference cases are C12's)"},
+		Assumptions: append([]string{"compatibility guard vCompat (harness/fit/c02.go): canonical base-type byte; strings into string fields at any size; arrays with the profile's own base type and a positive multiple of its size; scalars with size == base size <= profile size and equal type or integer types of equal signedness", "M-reflect"}, commonAssumptions...),
+	})
+}
+
 // ---------------------------------------------------------------- mutants
 
 type Mutant struct {
